@@ -118,6 +118,10 @@ fn generate(rng: &mut Rng, arch: &str) -> (Vec<Ins>, usize, Vec<(usize, usize)>)
             } else {
                 Ins { bytes: vec![0xc3], kind: "ind", rel: 0, target: -1 }
             }
+        } else if r < 3 {
+            // jrcxz / jecxz / loop: conditional jumps that only exist with an 8-bit displacement
+            let op = if arch == "x86" && rng.bool() { 0xe3 } else { 0xe2 }; // the amd64 lifter refuses jrcxz
+            Ins { bytes: vec![op, 0], kind: "cond", rel: 1, target: rng.below(n as u64) as i64 }
         } else if r < 10 {
             let near = rng.bool();
             let cc = rng.below(16) as u8;
@@ -154,7 +158,11 @@ fn generate(rng: &mut Rng, arch: &str) -> (Vec<Ins>, usize, Vec<(usize, usize)>)
             }
             let disp = off[v[i].target as usize] as i64 - off[i + 1] as i64;
             if v[i].rel == 1 {
-                if disp < -128 || disp > 127 {
+                if (disp < -128 || disp > 127) && (v[i].bytes[0] == 0xe3 || v[i].bytes[0] == 0xe2) {
+                    // no wide form: aim at the next instruction instead
+                    v[i].target = ((i + 1) % n) as i64;
+                    changed = true;
+                } else if disp < -128 || disp > 127 {
                     // widen
                     let op = v[i].bytes[0];
                     v[i].bytes = if op == 0xeb { vec![0xe9, 0, 0, 0, 0] } else { vec![0x0f, 0x80 + (op - 0x70), 0, 0, 0, 0] };
